@@ -28,13 +28,36 @@ Theorem C19_accept_single_file : forall marking out content fs,
 Proof. exact accept_single_file. Qed.
 Print Assumptions C19_accept_single_file.
 
-(* file names of the Rust generator: interfaces are keyed by their lower-cased name, so two
-   interfaces that differ only in case collapse into one file (F17) *)
-Theorem C19_casefold_collision_refuted :
+(* file names of the Rust generator: interfaces are keyed by their lower-cased name.  The pinned
+   upstream generator let two interfaces that differ only in case collapse into one file (F17) ... *)
+Theorem C19_casefold_collision_refuted_upstream :
   let mir := [MTIface (MI "Foo" None []); MTIface (MI "FOO" None [])] in
-  rust_names "coll" mir = ["foo.rs"].
-Proof. vm_compute. reflexivity. Qed.
-Print Assumptions C19_casefold_collision_refuted.
+  rust_generate_gen false "coll" mir = Some ["foo.rs"] /\ rust_generate_gen true "coll" mir = None.
+Proof. exact rust_generate_loses_interface_upstream. Qed.
+Print Assumptions C19_casefold_collision_refuted_upstream.
+
+(* ... the repaired one (regenerated fact) either rejects - and then nothing is written, by
+   C19_reject_no_effect - or writes one distinct file per interface: the file of every interface
+   is among them and their number is that of the interfaces beside the file-level module plus
+   that module when it has content *)
+Theorem C19_rust_one_file_per_interface : rust_collision_rejected = true -> forall stem mir l,
+  rust_generate stem mir = Some l ->
+  (forall i, In (MTIface i) mir -> In (lower (mi_name i) ++ ".rs")%string l) /\
+  NoDup l /\
+  List.length l = ((if rust_base_used stem mir then 1 else 0) + List.length (rust_others stem mir))%nat.
+Proof. intros F stem mir l. unfold rust_generate. rewrite F. apply rust_generate_complete. Qed.
+Print Assumptions C19_rust_one_file_per_interface.
+Theorem C19_rust_one_file_per_interface_current : forall stem mir l,
+  rust_generate stem mir = Some l ->
+  (forall i, In (MTIface i) mir -> In (lower (mi_name i) ++ ".rs")%string l) /\
+  NoDup l /\
+  List.length l = ((if rust_base_used stem mir then 1 else 0) + List.length (rust_others stem mir))%nat.
+Proof. exact (C19_rust_one_file_per_interface eq_refl). Qed.
+Print Assumptions C19_rust_one_file_per_interface_current.
+Theorem C19_rust_rejects_only_collisions : forall stem mir,
+  rust_generate_gen true stem mir = None <-> nodup_str (rust_others stem mir) = false.
+Proof. exact rust_generate_rejects_iff. Qed.
+Print Assumptions C19_rust_rejects_only_collisions.
 
 Example C19_nonvacuous :
   let fs := [("out.h", "OLD CONTENT THAT IS MUCH LONGER THAN THE NEW ONE")] in
